@@ -117,11 +117,17 @@ pub struct Child {
     pub pushed_seq: u64,
     pub epoch: u32,
     pub panic_left: u8,
+    /// the future type of this child has no destructor: its drop cannot be observed
+    pub no_drop_glue: bool,
 }
 
 impl Child {
     pub fn held(&self) -> bool {
         self.accepted && self.life != Life::Done && self.dropped == 0
+    }
+    /// the drop of this child is observable
+    pub fn tracked(&self) -> bool {
+        !self.no_drop_glue
     }
 }
 
@@ -398,6 +404,7 @@ impl World {
             pushed_seq: 0,
             epoch: 0,
             panic_left: plan.panic_polls,
+            no_drop_glue: false,
         });
         id
     }
